@@ -23,15 +23,15 @@ CHECKS_ALL = {
          "DESIGN.md §2 C03"),
  "C04": ("process-level monitors on hostile inputs: panic hook + catch_unwind, counting reader with a logical work budget (termination as bounded progress), per-thread counting allocator (peak <= const + linear); Miri lane in thorough",
          "Prefixes of valid streams, 1-8 bit/byte/field mutations biased to headers and pointers, field-directed extremes (block count 65535, pointers backwards/overlapping/self-referential/out of range, unknown and non-UTF-8 block names, gates 65535, word size 0..255, cut count 52..65535, zone count 65535) and random bytes are run through every decoding entry point (all 256+ type codes for contents) and radial()/into_radial() of whatever decoded, under the panic, reader-work and allocator monitors.",
-         "Termination is decided on logical reader work (<= 64x an independent plain walk of the same bytes + 1 MiB), never on wall time; memory bound 64 MiB + 64 n; inputs whose plain walk exceeds 50 MiB are skipped and counted.",
+         "Termination is decided on logical reader work (<= 64x an independent plain walk of the same bytes + 1 MiB) and, for code that spins without reading, on a per-call CPU-time budget of 60 s (thread CPU clock, never wall time); memory bound 64 MiB + 64 n; inputs whose plain walk exceeds 50 MiB are skipped and counted; a process death by signal is reported as a violation by the driver.",
          "DESIGN.md §2 C04"),
  "C05": ("reference-model monitor: generated containers (known payloads) through the real File/Record/Chunk API; ASan-instrumented libbz2 and valgrind memcheck lanes",
-         "Containers with arbitrary header bytes, 0..40 records, payloads 0 B..300 KiB of five kinds (random, constant, bzip2-looking, doubly compressed, repeating), plain bodies, +/- prefixes are checked for exact tiling, compressed() <=> BZ magic, byte-exact bzip2 round trip, the two error cases, header accessors, and chunk classification.",
+         "Containers with arbitrary header bytes, 0..40 records, payloads 0 B..300 KiB of five kinds (random, constant, bzip2-looking, doubly compressed, repeating), plain bodies, bodies that merely start with the two magic bytes 'BZ', +/- prefixes are checked for exact tiling, compressed() <=> BZ magic, byte-exact bzip2 round trip, the two error cases, header accessors, and chunk classification.",
          "Trusts libbz2's compressor for building inputs (the decompressor is the code under test, also run under ASan/valgrind).",
          "DESIGN.md §2 C05"),
- "C06": ("panic monitor over exhaustive boundary lengths, every truncation point of valid files, corrupted prefixes and bit-flipped bzip2; ASan+libbz2 / valgrind lanes on the corrupted-bzip2 part",
+ "C06": ("panic monitor and CPU-time termination monitor over exhaustive boundary lengths, every truncation point of valid files, corrupted prefixes and bit-flipped bzip2; ASan+libbz2 / valgrind lanes on the corrupted-bzip2 part",
          "Every length 0..=64 x 12 content families, every truncation point of generated volumes/containers/chunks, a corrupted size prefix at any record, 1-16 bit flips inside bzip2 bodies and random bytes are wrapped as File, Record (owned/borrowed) and Chunk and driven through every public call of the statement including {:?}; any panic is a violation.",
-         "Termination has no logical-step hook here (libbz2 is native): a hang would trip the outer watchdog and be reported inconclusive, not as a verdict.",
+         "Termination has no logical-step hook here (libbz2 is native code): it is restated as a per-call CPU-time budget of 20 s measured on the calling thread's CPU clock (the unchanged code needs <= ~25 ms per call on these inputs; the maximum observed is written to the evidence). Wall time is never a verdict.",
          "DESIGN.md §2 C06"),
  "C08": ("reference-model monitor (independent integer calendar) over an exhaustive enumeration of day counts, run through the real decoders; panic monitor for the out-of-range clause",
          "All 65,535 in-range day counts are driven through each of the seven public date-time accessors (via their real decoders) and compared with an independent integer calendar: instant, civil fields, strict monotonicity, decode-crate vs data-crate agreement. Exhaustive in d; t is sampled at the edges plus seeded values (all 1440 minutes on four days). Out-of-range fields are run under the panic monitor.",
@@ -66,7 +66,7 @@ CHECKS_ALL = {
          "Message dates >= 2; status coded fields inside their documented domains; VOL VCP numbers in the six the crate names.",
          "DESIGN.md §2 C14"),
  "C15": ("exhaustive enumeration of bucket shapes through the real rotated search (hooked, in memory, counting probe closure) + get_latest_volume against the loopback S3 simulator with a request log",
-         "(a) every shape (newest index, populated count) for sizes 1..=64 and all 998,002 shapes at the production size 999 are run through the real search routine with distinct upload times, plus non-uniform time gaps to show only order type matters: result must be the newest populated directory, probes <= n + 3*ceil(log2(n+1)) + 4, indices < n. (b) get_latest_volume runs over HTTP against simulated 999-directory buckets (36 corner shapes + seeded): returned volume, reported calls == LIST requests logged, every LIST max-keys=1 with prefix SITE/<1..=999>/.",
+         "(a) every shape (newest index, populated count) for sizes 1..=64 and all 998,002 shapes at the production size 999 are run through the real search routine with distinct upload times, plus non-uniform time gaps to show only order type matters: result must be the newest populated directory, probes <= n + 3*ceil(log2(n+1)) + 4, indices < n. (b) get_latest_volume runs over HTTP against simulated 999-directory buckets (36 corner shapes + seeded, a sixth of them stamped ahead of the wall clock as with a client clock running behind S3): returned volume, reported calls == LIST requests logged, every LIST max-keys=1 with prefix SITE/<1..=999>/.",
          "Populated directories form one contiguous run ending at the newest, upload times distinct (the statement's precondition). Hooks: verif_hooks::search, endpoint override.",
          "DESIGN.md §2 C15"),
  "C16": ("exhaustive enumeration of the 999 x 55 position space and the full successor cycle; seeded valid archive names against the integer calendar; panic monitor on a Unicode string grammar",
@@ -86,7 +86,7 @@ CHECKS_ALL = {
          "Rounding of the two means is not fixed by the statement: anything in [floor, ceil] is accepted.",
          "DESIGN.md §2 C19"),
  "C20": ("build-status monitor over the completely enumerated feature powerset (cargo check exit status per configuration against /repo's working tree) plus a probe binary built and run per named-feature configuration under a panic monitor",
-         "The property's observable is the build, so each configuration is treated as a workload whose first event is 'it compiled' (cargo check --no-default-features --features <set> --lib --examples) and, for the named-feature configurations, whose second event is a probe binary exercising the always-present API. quick: model 2^3, decode 2^2, facade 2^3, data named 2^2 + every optional dependency alone / all-but-one / all / seeded subsets (89 cells, 25 probe runs). thorough: all 1,024 data combinations. The space is finite and thorough enumerates it completely.",
+         "The property's observable is the build, so each configuration is treated as a workload whose first event is 'it compiled' (cargo check --no-default-features --features <set>, `--lib` alone first — the consumer's view, free of the feature unification the examples' dev-dependencies cause — then `--examples`) and, for the named-feature configurations, whose second event is a probe binary exercising the always-present API. quick: model 2^3, decode 2^2, facade 2^3, data named 2^2 + every optional dependency alone / every pair / all-but-one / all / seeded subsets (117 cells, 25 probe runs). thorough: all 1,024 data combinations. The space is finite and thorough enumerates it completely.",
          "cargo check type-checks but does not link (the probe runs do); examples' dev-dependencies use workspace defaults; this check sits at the edge of the runtime-monitoring family (DESIGN.md §2 C20).",
          "DESIGN.md §2 C20"),
 }
